@@ -714,3 +714,71 @@ Proof.
   destruct (reachable_state_wf Ref n p) as [_ V]. specialize (V v Hv). unfold wf_val in V.
   rewrite Forall_forall in V. apply V; exact Hin.
 Qed.
+
+(* ---- a variable is bound AFTER its init form has been evaluated (let*, let): the frame that holds the new variable
+   does not exist while the init form runs, so no closure that exists when the binding is made - the value of the init
+   form itself, a closure it stored in any cell, a closure it put in the function table - has that frame in its scope.
+   With locate_stable / closure_binding_stable: a closure made by the init form of x that mentions x refers to the
+   ENCLOSING x for ever, it never reads or assigns the variable being bound.  (A let* that opened the scope of the
+   variable before evaluating its init form would give the closure a scope that contains the frame: `unseen` fails.) *)
+Definition unseen (f : nat) (v : val) : Prop := Forall (fun s => ~ In f (map fst s)) (scopes_of v).
+
+Lemma wf_scope_below : forall st sc, wf_scope st sc -> ~ In (List.length (frames st)) (map fst sc).
+Proof.
+  intros st sc W C. unfold wf_scope in W. rewrite Forall_forall in W.
+  apply in_map_iff in C. destruct C as [[f h] [E I]]. simpl in E. subst. apply W in I. simpl in I. lia.
+Qed.
+Lemma fresh_frame_unseen : forall st v, wf_val st v -> unseen (List.length (frames st)) v.
+Proof.
+  intros st v W. unfold unseen, wf_val in *. rewrite Forall_forall in *. intros s Hs.
+  apply wf_scope_below. apply W; exact Hs.
+Qed.
+
+Theorem letstar_init_outside_own_binding : forall m n st sc x e bs body v st1 a,
+  wf_state st -> wf_scope st sc ->
+  eval m n st sc e = (Ok v, st1) -> store_red m v = Ok a ->
+  eval m (S n) st sc (ELetStar ((x, e) :: bs) body) =
+    ev_letstar m (eval m n) (snd (alloc st1 [(x, a)])) ((List.length (frames st1), 1) :: sc) bs body
+  /\ unseen (List.length (frames st1)) a
+  /\ (forall l w, cell_get (frames st1) l = Some w -> unseen (List.length (frames st1)) w)
+  /\ (forall g c, find_fun (funs st1) g = Some c -> unseen (List.length (frames st1)) c)
+  /\ ~ In (List.length (frames st1)) (map fst sc).
+Proof.
+  intros m n st sc x e bs body v st1 a W Hs E R.
+  destruct (eval_wf m n st sc e W Hs) as (X & W1 & V1). rewrite E in *. simpl in *.
+  split; [|split; [|split; [|split]]].
+  - change (eval m (S n) st sc (ELetStar ((x, e) :: bs) body)) with
+      (bind (eval m n st sc e) (fun v st1 => bindo (store_red m v) st1 (fun a =>
+         let '(f, st2) := alloc st1 [(x, a)] in ev_letstar m (eval m n) st2 ((f, 1) :: sc) bs body))).
+    rewrite E. simpl. rewrite R. reflexivity.
+  - apply fresh_frame_unseen. eapply wf_store_red; [|exact R]. apply V1; reflexivity.
+  - intros l w C. apply fresh_frame_unseen. eapply wf_cell_get; eauto.
+  - intros g c C. apply fresh_frame_unseen. eapply wf_find_fun; eauto.
+  - apply wf_scope_below. eapply wf_scope_ext; eauto.
+Qed.
+
+(* let: all init forms first, then ONE frame for all variables; nothing that exists then has the frame in its scope *)
+Theorem let_inits_outside_binding : forall m n st sc bs body vs st1,
+  wf_state st -> wf_scope st sc ->
+  ev_inits m (eval m n) st sc (map snd bs) = (Ok vs, st1) ->
+  eval m (S n) st sc (ELet bs body) =
+    ev_seq (eval m n) (snd (alloc st1 (mk_frame (map fst bs) vs)))
+           ((List.length (frames st1), List.length (mk_frame (map fst bs) vs)) :: sc) body VNil
+  /\ Forall (unseen (List.length (frames st1))) vs
+  /\ (forall l w, cell_get (frames st1) l = Some w -> unseen (List.length (frames st1)) w)
+  /\ ~ In (List.length (frames st1)) (map fst sc).
+Proof.
+  intros m n st sc bs body vs st1 W Hs E.
+  destruct (ev_inits_wf m (eval m n) (eval_wf m n) (map snd bs) st sc W Hs) as (X & W1 & V1). rewrite E in *. simpl in *.
+  split; [|split; [|split]].
+  - change (eval m (S n) st sc (ELet bs body)) with
+      (bind (ev_inits m (eval m n) st sc (map snd bs)) (fun vs st1 =>
+         let fr := mk_frame (map fst bs) vs in
+         let '(f, st2) := alloc st1 fr in
+         ev_seq (eval m n) st2 ((f, List.length fr) :: sc) body VNil)).
+    rewrite E. reflexivity.
+  - specialize (V1 vs eq_refl). unfold wf_vals in V1. rewrite Forall_forall in *. intros w Hw.
+    apply fresh_frame_unseen. apply V1; exact Hw.
+  - intros l w C. apply fresh_frame_unseen. eapply wf_cell_get; eauto.
+  - apply wf_scope_below. eapply wf_scope_ext; eauto.
+Qed.
